@@ -198,7 +198,7 @@ def gen_c10(r, tier, info):
     cases = []
     for _ in range(12 if tier == "quick" else 150):
         key = rkey(r)
-        data = rbytes(r, r.choice((0, 5, 31, 32, 33, 64, 100)))
+        data = rbytes(r, r.choice((0, 5, 31, 32, 33, 40, 41, 64, 100)))
         w = r.choice((64, 128, 256))
         b = B("c10", [])
         b.op(f"new 0 auto {kstr(key)}")
@@ -214,6 +214,15 @@ def gen_c10(r, tier, info):
             b.eq(t0, t, "HighwayHasher obtained in different ways selected different back ends")
         b.op(f"append 2 {hexbytes(data[len(data) // 2:])}")
         b.op(f"append 3 {hexbytes(data[len(data) // 2:])}")
+        # "the same results as portable" includes the persisted state: checkpoint bytes after a two-chunk history
+        b.op(f"new 8 portable {kstr(key)}")
+        b.op(f"append 8 {hexbytes(data[:len(data) // 2])}")
+        b.op(f"append 8 {hexbytes(data[len(data) // 2:])}")
+        c2 = b.op("ckpt 2")
+        c3 = b.op("ckpt 3")
+        c8 = b.op("ckpt 8")
+        b.eq(c2, c8, "checkpoint of a restored HighwayHasher differs from portable's for the same stream")
+        b.eq(c3, c8, "checkpoint of a cloned HighwayHasher differs from portable's for the same stream")
         x2 = b.op(f"fin 2 {w}")
         x3 = b.op(f"fin 3 {w}")
         p = b.op(f"hash portable {w} {kstr(key)} {hexbytes(data)}")
